@@ -1,19 +1,14 @@
 """C03 — devices see exactly the latest upstream values along the declared wiring."""
 from . import simprop
 
-MODULES = ["TickitModel.Props.C03"]
-THEOREMS = ["synced_init", "synced_tick", "inputs_latest", "synced_run"]
+MODULES = ['TickitModel.Props.C03', 'TickitModel.Props.C03Nested']
+THEOREMS = ['synced_init', 'synced_tick', 'inputs_latest', 'synced_run', 'flat_sim_is_flatRun', 'nested_refines_flatRun', 'nested_inputs_synced']
 ANCHORS = ["src/tickit/core/management/event_router.py", "src/tickit/core/management/ticker.py",
            "src/tickit/core/components/device_component.py", "src/tickit/core/management/schedulers/nested.py",
            "src/tickit/core/components/system_component.py"]
 TECHNIQUE = "Lean 4 theorems (invariant 'component inputs = latest reported upstream values' over all multi-tick histories and answer orders of flat simulations) + whole-simulation trace validation incl. nested boundaries against the model"
-LEVEL_TEXT = ("Theorems over the flat multi-tick model (any wiring with one source per port, any devices, any number of ticks, any answer order in "
-              "each tick): the invariant that every wired input holds the latest value ever reported on its source is preserved by every tick, and "
-              "every observation made in a tick has exactly the wired ports, each with the latest reported value including values produced earlier in "
-              "the same tick. PARTIAL: crossing system-simulation boundaries is not yet a theorem; it is covered by trace validation: the per-device "
-              "observation sequences of generated nested simulations (depth <= 3, external inputs, exposed and pass-through ports) must equal those "
-              "of the Lean whole-simulation model, and a direct monitor checks inputs == latest upstream values through the resolved wiring.")
-LEVEL_NOTE = "Trusts: Lean kernel; hand-written models; for nesting the correspondence (not a proof) carries the claim."
+LEVEL_TEXT = "Theorems over the flat multi-tick model (any wiring with one source per port, any devices, any number of ticks, any answer order in each tick): the invariant that every wired input holds the latest value ever reported on its source is preserved by every tick, and every observation made in a tick has exactly the wired ports, each with the latest reported value including values produced earlier in the same tick. THROUGH SYSTEM BOUNDARIES: the nested whole-simulation model (any depth) is proved to refine that flat system over the resolved device-level wiring (C09 transparency + 'a flat whole-simulation run is a FlatRun'), so every observation of every device at any depth is explained by a Synced flat run: external and exposed ports deliver exactly the latest values of the resolved sources, in both directions, within the same tick. (The nested model answers dispatches first-in first-out; callbacks only - interrupts are validated.) Tie to the code: per-device observation sequences of generated flat and nested simulations (depth <= 3, shared port names, several wires from one source, pass-through ports) under two buses must equal those of the Lean model, and a direct monitor checks inputs == latest upstream values through the resolved wiring."
+LEVEL_NOTE = 'Trusts: Lean kernel; hand-written models (tied by whole-simulation trace validation on every run).'
 ASSUMPTIONS = ["each input port has one source", "acyclic wiring", "valid configuration names (unique, not 'external'/'expose')"]
 MON = ("inputs_latest", "device_order")
 CORR = ("sim",)
